@@ -594,8 +594,7 @@ func lengths(rec *vcommon.Rec, big bool) []int {
 			ls = append(ls, l)
 		}
 	}
-	add(0, 300)
-	add(500, 520)
+	add(0, 800) // every length: covers the capacity limit of A answers (255 records x 3 bytes) under every codec
 	add(1000, 1030)
 	add(4090, 4100)
 	add(8180, 8192)
